@@ -832,7 +832,7 @@ def plan(tier, seed):
       for wi, wm in enumerate(WMS):
         cases.append(("init", idx, name, form_name, wm, CELLS[(fi + wi) % 3], PIXELS[(fi + pi + wi) % 4]))
         idx += 1
-  n_random = 1500 if tier == "quick" else 60000
+  n_random = 1500 if tier == "quick" else 250000
   cases += [("random", i) for i in range(n_random)]
   return cases
 
